@@ -173,6 +173,12 @@ Member gen_file(Rng &rng, int level, const std::string &path, const std::string 
 			bool env = rng.chance(2, 3);
 			m.plain = env ? make_macbinary(name, fork, (uint32_t)(mt + (int64_t) rng.below(3600) - 1800)) : fork;
 			m.mac = env;
+			if (env && rng.chance(1, 6) && name.size() < 50) {
+				// looks like an envelope, but its name-length byte claims more characters than the member's name has:
+				// not an envelope, the member is its 128-byte-aligned bytes as they are
+				m.plain[1] = (uint8_t)(name.size() + 1 + rng.below(12));
+				m.mac = 0;
+			}
 			method = rng.chance(1, 2) ? "-lh0-" : "-lz5-";
 			m.method = method;
 			m.data = method == "-lh0-" ? m.plain : encode_lz5(m.plain, &rng);
